@@ -75,6 +75,14 @@ func genInputs(c *core.Ctx, rep int) *inputs {
 	o.Lengths, o.Supports = 2, 2
 	o.Rooted = 0
 	o.InnerNames = 0
+	if rep%3 == 2 {
+		// degenerate / decorated shapes: single-child inner nodes, node and branch comments, inner names,
+		// and (one time in two) a two-tip tree hanging under the root so that small clades abound
+		o.Singles = 0.15
+		o.Comments = 0.3
+		o.InnerNames = 0.2
+		o.Multif = 0.5
+	}
 	n, _ := g.Tree(o)
 	in.tree = toNewick(n)
 	in.tips = n.TipNames()
